@@ -220,10 +220,12 @@ theorem parallel_results_in_branch_order (env : Env) (fuel : Nat) (bs : List Jso
       · simp at h
 
 /-- Map yields the iteration outputs in item order, iteration k seeing item k (through the
-ItemSelector when there is one, with `$$.Map.Item.Index = k`). -/
+ItemSelector when there is one, with `$$.Map.Item.Index = k`).  (`false`: no iteration has failed when
+the Map state starts its iterations — the flag `runItems` carries since it stops launching batches after a
+failure.) -/
 theorem map_results_in_item_order (env : Env) (fuel : Nat) (proc : Json) (sel : Option Json) (input : Json)
     (items : List Json) (i0 mc : Nat) (be : Rat) (ctx : Json) (st st' : St) (vs : List Json)
-    (h : runItems env fuel proc sel input items i0 mc be ctx st = (.ok vs, st')) :
+    (h : runItems env fuel proc sel input items i0 mc be ctx false st = (.ok vs, st')) :
     vs.length = items.length ∧
     ∀ k (hk : k < items.length), ∃ f s1 s2 start states params v,
       fldStr proc "StartAt" = some start ∧ fld proc "States" = some states ∧
@@ -241,7 +243,7 @@ theorem map_results_in_item_order (env : Env) (fuel : Nat) (proc : Json) (sel : 
     cases fuel with
     | zero => simp [runItems] at h
     | succ n =>
-      simp only [runItems] at h
+      simp only [runItems, Bool.false_eq_true, and_false, if_false, Bool.false_or] at h
       generalize (if mc ≠ 0 ∧ i0 ≠ 0 ∧ i0 % mc = 0 then
           (st.waitUntil be).batch (ctxStateName ctx) (List.replicate (min mc (items.length + 1)) ((fldStr proc "StartAt").getD []))
         else st) = st0 at h
@@ -253,13 +255,13 @@ theorem map_results_in_item_order (env : Env) (fuel : Nat) (proc : Json) (sel : 
           generalize hr : runFrom env n states start params ctx 0 ((st0.push (.iterStarted (ctxStateName ctx) i0)).startBranch) = r at h
           obtain ⟨r1, s1⟩ := r
           simp only at h
-          generalize hrest : runItems env n proc sel input items (i0 + 1) mc (rmax be s1.clock) ctx
+          generalize hrest : runItems env n proc sel input items (i0 + 1) mc (rmax be s1.clock) ctx (isFailed r1)
             (((s1.iterEnd (ctxStateName ctx) i0 r1).endBranch (isFailed r1)).at st0.clock) = rr at h
           obtain ⟨rest, s2⟩ := rr
           simp only at h
           obtain ⟨v, vs', e1, e2, e3, _⟩ := fanCombine_ok h
           subst e1 e2 e3
-          have := ih n (i0 + 1) _ _ s2 vs' hrest
+          have := ih n (i0 + 1) _ _ s2 vs' (by simpa [isFailed] using hrest)
           refine ⟨by simp [this.1], ?_⟩
           intro k hk
           cases k with
@@ -362,7 +364,7 @@ private def par2 : Json := .obj [(k "StartAt", .str (k "B")), (k "States", .obj 
   .obj [(k "Type", .str (k "Pass")), (k "Result", .num 2), (k "End", .bool true)])])]
 example : (runBranches envK 10 [par, par2] (.obj []) (.obj []) {}).1 = .ok [.num 1, .num 2] := by rfl
 
-example : (runItems envK 10 par none (.obj []) [.num 7, .num 8] 0 0 0 (.obj []) {}).1 = .ok [.num 1, .num 1] := by rfl
+example : (runItems envK 10 par none (.obj []) [.num 7, .num 8] 0 0 0 (.obj []) false {}).1 = .ok [.num 1, .num 1] := by rfl
 
 example : Lite.choose.go (.obj [(k "n", .num 3)]) (.obj [])
     [.obj [(k "Variable", .str (k "$.n")), (k "NumericEquals", .num 1), (k "Next", .str (k "X"))],
